@@ -684,6 +684,60 @@ def continuation_block(mir):
     raise Unsupported("continuation block of eval's loop not found")
 
 
+def _callee_of(term):
+    """callee of a call terminator `_N = CALLEE(ARGS) -> ..` (generic arguments of CALLEE may contain parentheses)"""
+    m = re.fullmatch(r"(?:_\d+|\(.*?\)) = (.*) -> (?:\[return: bb\d+, unwind.*\]|unwind.*|bb\d+);", term)
+    if not m:
+        return None
+    body = m.group(1)
+    if not body.endswith(")"):
+        return None
+    depth = 0
+    for i in range(len(body) - 1, -1, -1):
+        if body[i] == ")":
+            depth += 1
+        elif body[i] == "(":
+            depth -= 1
+            if depth == 0:
+                return re.sub(r"\{closure@[^}]*\}", "{closure}", body[:i])
+    return None
+
+
+def arm_callees(mir, variant):
+    """sorted callees on the normal (non-unwind) paths of the arm of `Instruction::<variant>` in eval's loop, from the arm's
+    entry block to the end of the iteration: the code shape a hand-written model of that arm was written for"""
+    f = eval_fn(mir)
+    entries, _ = arm_entries(mir)
+    cont = continuation_block(mir)
+    head = cont
+    for _ in range(8):
+        t = f["blocks"][head][-1]
+        m = re.search(r"success: (bb\d+)", t) or re.fullmatch(r"goto -> (bb\d+);", t)
+        if not m:
+            break
+        head = m.group(1)
+    seen, todo, out = set(), [entries[variant]], []
+    while todo:
+        b = todo.pop()
+        if b in seen or b in (cont, head):
+            continue
+        seen.add(b)
+        t = f["blocks"][b][-1]
+        c = _callee_of(t)
+        if c is not None:
+            out.append(c)
+        for rx in (r"\[return: (bb\d+)", r"success: (bb\d+)"):
+            m = re.search(rx, t)
+            if m:
+                todo.append(m.group(1))
+        m = re.fullmatch(r"goto -> (bb\d+);", t)
+        if m:
+            todo.append(m.group(1))
+        if t.startswith("switchInt"):
+            todo += re.findall(r": (bb\d+)", t)
+    return sorted(out)
+
+
 def run_instruction(mir, variant, fields, operand_values, overflow_checks, mem=None, decide=None):
     """fields: list of field values of the Instruction variant (EnumV / Opaque); operand_values: [(operand EnumV, IrValue EnumV)].
     Returns ('value', IrValue EnumV, loud_conds) | ('loud', reason, []) | raises Unsupported."""
